@@ -44,7 +44,10 @@ def errSignature (s : VSchema) : VErr → String
   | .unusedVariable _ => "unused-variable"
   | .variableTypeMismatch name varTy locTy =>
     -- the refetch machinery's own `$id: ID!` shadows a user variable that is also called `id`
-    if name == cs!"id" && Ty.inner varTy == cs!"ID" && Ty.inner locTy != cs!"ID" then "variable-type-mismatch:user-variable-named-id" else
+    if name == cs!"id" && (match varTy with | .nonNull (.named n) => n == cs!"ID" | _ => false) && Ty.inner locTy != cs!"ID" then "variable-type-mismatch:user-variable-named-id" else
+    if (match varTy, locTy with
+        | .list v, .nonNull (.list l) => typesCompatible v l
+        | _, _ => false) then "variable-type-mismatch:non-null-list-printed-nullable" else
     match s.get? (Ty.inner locTy), s.get? (Ty.inner varTy) with
     | some (.input _), some (.input _) => "variable-type-mismatch:other"
     | some (.input _), _ => "variable-type-mismatch:object-argument-replaced-by-variable"
